@@ -646,7 +646,7 @@ func writeReplay(prop, name string, c interface{}, f *Fail) {
 var curCaseChecks = map[string]bool{}
 
 func writeCurCase(prop, name string, c interface{}) {
-	if !curCaseChecks[name] {
+	if !curCaseChecks[name] && os.Getenv("VERIF_CURCASE_ALL") == "" {
 		return
 	}
 	path := os.Getenv("VERIF_CURCASE")
